@@ -21,6 +21,14 @@ def docs_of(filt, key):
     return _docs[filt]
 
 
+def tool_hash():
+    import hashlib, glob
+    h = hashlib.md5()
+    for f in [os.path.abspath(__file__), os.path.join(HERE, "sites.json")] + sorted(glob.glob(os.path.join(HERE, "sites.d", "*.json"))):
+        h.update(open(f, "rb").read())
+    return h.hexdigest()[:12]
+
+
 def ids(n):
     return {x.get("id") for x in T.walk(n) if isinstance(x, dict) and x.get("id")}
 
@@ -55,9 +63,10 @@ def main():
         fid = fn.get("id")
         rec = funcs.setdefault(fid, {"fn": fn, "name": s["name"], "filter": s["filter"],
                                      "inst": str(s.get("targs", s.get("record", s.get("margs", "")))),
-                                     "sel": [], "families": set()})
+                                     "sel": [], "families": set(), "sites": []})
         rec["sel"].append(ids(node) if s.get("select", "function") != "function" else None)
         rec["families"].add(fam_of.get(s["lean"], "base"))
+        rec["sites"].append(s["lean"])
     out = []
     tot_d = cov_d = tot_a = cov_a = 0
     for fid, rec in funcs.items():
@@ -97,7 +106,7 @@ def main():
         tot_d += len(decisions); cov_d += len(decisions) - len(d_unc)
         tot_a += len(assigns); cov_a += len(assigns) - len(a_unc)
         out.append({"function": rec["name"], "instance": rec["inst"], "filter": rec["filter"],
-                    "families": sorted(rec["families"]), "whole_function": whole,
+                    "families": sorted(rec["families"]), "sites": rec["sites"], "whole_function": whole,
                     "decisions": len(decisions), "decisions_regenerated": len(decisions) - len(d_unc),
                     "decisions_hand_modelled_lines": sorted({l for _, l in d_unc if l}),
                     "assignments": len(assigns), "assignments_regenerated": len(assigns) - len(a_unc)})
@@ -105,7 +114,7 @@ def main():
     summ = {"functions_with_sites": len(out), "decisions": tot_d, "decisions_regenerated": cov_d,
             "assignments": tot_a, "assignments_regenerated": cov_a}
     os.makedirs(T.BUILD, exist_ok=True)
-    json.dump({"repo_hash": key, "summary": summ, "functions": out},
+    json.dump({"repo_hash": key, "tool_hash": tool_hash(), "summary": summ, "functions": out},
               open(os.path.join(T.BUILD, "site_coverage.json"), "w"), indent=1)
     print(json.dumps(summ))
     if "-v" in sys.argv:
